@@ -13,8 +13,10 @@ import (
 	"verifharness/vh"
 )
 
-// ipCase is one finished input printed by GenIpDict.tla: key k <= a is ::k, key k > a is
-// 0.0.0.(k-a-1); exp is the set of probe keys (0..2a+1) the spec says are contained.
+// ipCase is one finished input printed by GenIpDict.tla.  Keys live in ONE ordered address space
+// (16-byte order): 0..a is ::k, a+1..2a+1 is the IPv4 address 0.0.0.(k-a-1) (= ::ffff:0.0.0.n),
+// 2a+2..3a+2 is ::1:0:0:(k-2a-2), just above the IPv4-mapped block.  exp is the set of probe keys
+// (0..3a+2) the spec says are contained.
 type ipCase struct {
 	ID   int      `json:"id"`
 	A    int      `json:"a"`
@@ -24,17 +26,35 @@ type ipCase struct {
 	Path string   `json:"path"` // "api" | "txt" | "" (chosen from id)
 }
 
+func isV4(a, k int) bool { return k >= a+1 && k <= 2*a+1 }
+
+// keyIP: short selects the 4-byte form of an IPv4 address (ignored for IPv6 keys).
 func keyIP(a, k int, short bool) net.IP {
-	if k <= a {
+	switch {
+	case k <= a:
 		ip := make(net.IP, 16)
 		ip[15] = byte(k)
 		return ip
+	case isV4(a, k):
+		ip := net.IPv4(0, 0, 0, byte(k-a-1)) // 16-byte IPv4-mapped form
+		if short {
+			return ip.To4()
+		}
+		return ip
+	default:
+		ip := make(net.IP, 16)
+		ip[9] = 1 // ::1:0:0:n
+		ip[15] = byte(k - 2*a - 2)
+		return ip
 	}
-	ip := net.IPv4(0, 0, 0, byte(k-a-1))
-	if short {
-		return ip.To4()
+}
+
+// keyText: textual form for the txt loader; IPv4 alternately dotted and as IPv4-mapped IPv6.
+func keyText(a, k int, mapped bool) string {
+	if isV4(a, k) && mapped {
+		return fmt.Sprintf("::ffff:0.0.0.%d", k-a-1)
 	}
-	return ip
+	return keyIP(a, k, false).String()
 }
 
 func buildAPI(c *ipCase) (*ipdict.IPItems, error) {
@@ -68,10 +88,10 @@ func buildTxt(c *ipCase) (*ipdict.IPItems, error) {
 		if i%2 == 1 {
 			sep = "\t"
 		}
-		fmt.Fprintf(&sb, "%s%s%s\n", keyIP(c.A, r[0], false).String(), sep, keyIP(c.A, r[1], false).String())
+		fmt.Fprintf(&sb, "%s%s%s\n", keyText(c.A, r[0], (c.ID+i)%2 == 0), sep, keyText(c.A, r[1], (c.ID+i)%3 == 0))
 	}
-	for _, s := range c.S {
-		fmt.Fprintf(&sb, "%s\n", keyIP(c.A, s, false).String())
+	for i, s := range c.S {
+		fmt.Fprintf(&sb, "%s\n", keyText(c.A, s, (c.ID+i)%2 == 1))
 	}
 	name := fmt.Sprintf("ipdict_%d.txt", os.Getpid())
 	if err := os.WriteFile(name, []byte(sb.String()), 0o644); err != nil {
@@ -81,14 +101,36 @@ func buildTxt(c *ipCase) (*ipdict.IPItems, error) {
 	return txt_load.NewTxtFileLoader(name).CheckAndLoad("")
 }
 
+// ipShape classifies a missed probe k for the signature.
 func ipShape(c *ipCase, k int) string {
+	zero4 := c.A + 1
+	zero4Pair, fromBelow := false, false
+	for _, r := range c.R {
+		if r[0] == zero4 && r[1] == zero4 {
+			zero4Pair = true
+		}
+		if r[0] < zero4 && k <= r[1] {
+			fromBelow = true // k is covered by a range that starts below the IPv4-mapped block
+		}
+	}
+	for _, s := range c.S {
+		if s == k {
+			return "single"
+		}
+	}
+	if zero4Pair && fromBelow && k > zero4 {
+		// the pair 0.0.0.0-0.0.0.0 nested in an IPv6 range that straddles the IPv4-mapped block
+		return "zero4-pair-shadows-straddling-range"
+	}
 	shape := ""
 	for _, r := range c.R {
 		if r[0] <= k && k <= r[1] {
 			switch {
+			case r[0] <= c.A && r[1] >= 2*c.A+2:
+				return "range-straddling-v4"
 			case r[0] == 0:
-				return "range-from-zero6"
-			case r[0] == c.A+1:
+				shape = "range-from-zero6"
+			case r[0] == zero4 && shape == "":
 				shape = "range-from-zero4"
 			default:
 				if shape == "" {
@@ -96,9 +138,6 @@ func ipShape(c *ipCase, k int) string {
 				}
 			}
 		}
-	}
-	if shape == "" {
-		shape = "single"
 	}
 	return shape
 }
@@ -152,9 +191,9 @@ func ipdictRun() {
 		bad := ""
 		detail := ""
 		p = vh.Guard(func() {
-			for k := 0; k <= 2*c.A+1; k++ {
+			for k := 0; k <= 3*c.A+2; k++ {
 				for _, short := range []bool{false, true} {
-					if short && k <= c.A {
+					if short && !isV4(c.A, k) {
 						continue
 					}
 					probes++
@@ -168,8 +207,8 @@ func ipdictRun() {
 						} else {
 							bad = "false-hit/" + path
 						}
-						detail = fmt.Sprintf("Search(%s) = %v, spec says %v; ranges %v singles %v (key k<=%d is ::k, above is 0.0.0.(k-%d))",
-							keyIP(c.A, k, short), hit, exp[k], c.R, c.S, c.A, c.A+1)
+						detail = fmt.Sprintf("Search(%s) = %v, spec says %v; ranges %v singles %v (keys 0..%d are ::k, %d..%d are 0.0.0.(k-%d), above ::1:0:0:(k-%d))",
+							keyIP(c.A, k, short), hit, exp[k], c.R, c.S, c.A, c.A+1, 2*c.A+1, c.A+1, 2*c.A+2)
 					}
 				}
 			}
